@@ -9,6 +9,7 @@
      nhlen nh  = len(self._encode_nexthop(...))              encoded next hop (RD padding included)
      nheqb     = equality of the encoded next hop bytes     (the dict key of mpnlri.setdefault)
      alen      = len(self.attributes.pack_attribute(negotiated, include_defaults))
+   The choice of the attribute block (include_defaults) is modelled by messages_top at the end.
    Not modelled: the sort, the negotiated-family filter and the IPv4/MP classification that precede
    the loops (the inputs below are their results, in the order the loops visit them: v4a, v4w, and
    per family - in the iteration order of all_mp_families - the routed announces and the withdraws);
@@ -231,6 +232,48 @@ Section Split.
           end
         end.
 End Split.
+
+(* ---------------------------------------------------------------- which attribute block
+
+   messages() packs the attributes once, before the loops:
+       include_defaults = True
+       only_withdraws = not v4_announces and not mp_announces
+       if mp_withdraws and only_withdraws:
+           for family in mp_withdraws.keys():
+               if safi not in (SAFI.unicast, SAFI.multicast): break
+           else: include_defaults = False
+       attr = self.attributes.pack_attribute(negotiated, include_defaults)
+   mp_announces / mp_withdraws are dicts keyed by family: a family is in them iff it has an announce /
+   a withdraw.  `simple f` = the SAFI of f is unicast or multicast.  alen_full / alen_min are the
+   lengths of pack_attribute(negotiated, True) / (negotiated, False). *)
+Section Top.
+  Context {A NH F : Type}.
+  Variable sz : A -> Z.
+  Variable nhlen : NH -> Z.
+  Variable nheqb : NH -> NH -> bool.
+  Variable fixed : bool.
+  Variable simple : F -> bool.
+
+  Definition is_nil {T} (l : list T) : bool := match l with [] => true | _ => false end.
+  Definition fam_announces (fam : F * list (NH * A) * list A) : bool :=
+    match fam with (_, routed, _) => negb (is_nil routed) end.
+  Definition fam_withdraws (fam : F * list (NH * A) * list A) : bool :=
+    match fam with (_, _, wds) => negb (is_nil wds) end.
+  Definition fam_simple (fam : F * list (NH * A) * list A) : bool :=
+    match fam with (f, _, _) => simple f end.
+
+  Definition include_defaults (v4a : list A) (fams : list (F * list (NH * A) * list A)) : bool :=
+    let mp_withdraws := filter fam_withdraws fams in
+    let only_withdraws := is_nil v4a && negb (existsb fam_announces fams) in
+    negb (negb (is_nil mp_withdraws) && only_withdraws && forallb fam_simple mp_withdraws).
+
+  (* result: the messages, the outcome, and whether the block they carry (where m_attr = true) is the
+     requested attributes with the defaults (true) or the block packed without defaults (false) *)
+  Definition messages_top (M alen_full alen_min : Z) (v4a v4w : list A)
+             (fams : list (F * list (NH * A) * list A)) : list (Spec_Split.msg A NH F) * outcome * bool :=
+    let incl := include_defaults v4a fams in
+    (messages sz nhlen nheqb fixed M (if incl then alen_full else alen_min) v4a v4w fams, incl).
+End Top.
 
 (* the code as patched, and the code as pinned *)
 Definition split {A NH F} sz nhlen nheqb := @messages A NH F sz nhlen nheqb true.
